@@ -422,6 +422,9 @@ func runTasks(prog *ssa.Program, pkg *ssa.Package, runs []*taskRun, openKnown ma
 			cfg.KnownOpen = openKnown
 			if r.spec.Solver != "" {
 				cfg.Solver = r.spec.Solver
+			} else if alt := os.Getenv("VERIF_SOLVER"); alt != "" {
+				// cross-check of the encoding with another back end (DESIGN.md §1.4); tasks that name a solver keep it
+				cfg.Solver = alt
 			}
 			if r.spec.TimeoutMs > 0 {
 				cfg.TimeoutMs = r.spec.TimeoutMs
